@@ -4792,6 +4792,9 @@ class PyCdlib:
         # Above we checked to make sure we got at least one old path, so we
         # don't need to worry about the else situation here.
 
+        if not boot_catalog_old and old_rec.is_dir():
+            raise pycdlibexception.PyCdlibInvalidInput('Cannot make a hard link to a directory')
+
         if fmode == 0 and self.rock_ridge:
             # The old path has no Rock Ridge file mode (Joliet, UDF or the
             # boot catalog).  Use the mode of another name of the same
